@@ -276,9 +276,17 @@ def sized_reader_cls(L, bs):
         class SizedReader(base):
             _verif_block = bs
 
-            def _read_until(self, c, *args, **kwargs):
-                return base._read_until(self, c,
-                                        chunk_size=self._verif_block)
+            def _read_until(self, *args, **kwargs):
+                # only the block size is overridden; every other argument
+                # the library passes goes through unchanged
+                try:
+                    ba = inspect.signature(base._read_until).bind(
+                        self, *args, **kwargs)
+                    ba.arguments['chunk_size'] = self._verif_block
+                except TypeError:
+                    return base._read_until(self, *args, **kwargs)
+
+                return base._read_until(*ba.args, **ba.kwargs)
 
         SizedReader.__name__ = 'DiffXReader'
         cls = _SIZED[key] = SizedReader
